@@ -305,6 +305,8 @@ def run(ch: Checker) -> None:
 
     # ---------------- C06.7 / C06.8 (shared)
     ch.import_rules('C03', {'C03.1': 'C06.7', 'C03.2': 'C06.8'}, 'a request whose terminator is split across reads is only recognised (and answered) if the parser carries the unconsumed bytes over')
+    ch.import_rules('C07', {'C07.1': 'C06.14'}, 'a reply of the proxy\'s own making is delivered whole only if teardown waits for the client buffer to drain')
+    ch.import_rules('C05', {'C05.7': 'C06.15'}, 'every request gets an answer or a close only if no length taken from the wire can make the parser loop without consuming')
 
 
 def _owner(prog: Any, mod: Any, node: ast.AST) -> Optional[FuncInfo]:
